@@ -95,7 +95,23 @@ def decorate_faults(rng, spec, n_fault_nodes=None, allow_base=True, p_retry=0.5)
     names = [n for n in spec['nodes']]
     if n_fault_nodes is None:
         n_fault_nodes = rng.choice([0, 1, 1, 2, 2, 3, 4])
-    chosen = rng.sample(names, min(n_fault_nodes, len(names)))
+    if rng.random() < 0.5:
+        # bias towards nodes whose failure is seen from several scopes: switch deciders and nodes with >= 2 consumers
+        ncons = {}
+        for a, b in declared_edges(spec):
+            ncons[a] = ncons.get(a, 0) + 1
+        weighted = []
+        for n in names:
+            w = 1 + (4 if isinstance(n.get('value'), dict) else 0) + (2 if ncons.get(n['name'], 0) >= 2 else 0)
+            weighted += [n] * w
+        chosen = []
+        while weighted and len(chosen) < min(n_fault_nodes, len(names)):
+            c = rng.choice(weighted)
+            if c not in chosen:
+                chosen.append(c)
+            weighted = [x for x in weighted if x is not c]
+    else:
+        chosen = rng.sample(names, min(n_fault_nodes, len(names)))
     for n in chosen:
         ln = rng.randint(1, 4)
         plan = []
@@ -431,6 +447,9 @@ def _private_chain(b, rng, depth, cfg, level, shared=()):
                     srcs = rng.sample(priv, min(len(priv), rng.choice([1, 1, 2])))
         if shared and rng.random() < (0.6 if not srcs else 0.25):
             srcs.append(rng.choice(list(shared)))
+        if getattr(b, 'deciders', None) and rng.random() < cfg.get('p_read_decider', 0.0):
+            # a candidate / case sub-pipeline that reads the node deciding a switch elsewhere
+            srcs.append(rng.choice(b.deciders))
         if not srcs or rng.random() < 0.3:
             srcs += b.pick(1, exclude=set(srcs))
         if not srcs and b.public:
@@ -504,8 +523,12 @@ def _add_construct_kind(b, rng, params, cfg, level, kind):
         table = list(labels)
         if cfg.get('unknown_label') and rng.random() < 0.25:
             table.append('UNK')
-        d = b.new(b.in_params(dsrc), public=(shared or cfg.get('public_deciders')) and rng.random() < 0.5,
+        d = b.new(b.in_params(dsrc), public=(shared or cfg.get('public_deciders')) and rng.random() < 0.6,
                   value={'labels': table})
+        if d in b.public:
+            if not hasattr(b, 'deciders'):
+                b.deciders = []
+            b.deciders.append(d)
         b.nsw += 1
         name = f'sw{b.nsw}' if rng.random() < 0.8 else None
         params = params + [[kw, ['Switch', name, d, cases]]]
@@ -531,6 +554,10 @@ def gen_constructs(rng, cfg, faults=True, n_max=9, **kw):
     b.faults = faults
     b.new([])
     n_main = rng.randint(2, max(2, n_max - 3))
+    if rng.random() < 0.4:
+        # small programs: the interplay of two constructs is denser when little else is going on
+        n_main = rng.randint(2, 3)
+        cfg = dict(cfg, p_construct=0.8)
     placed = 0
     for i in range(n_main):
         last = i == n_main - 1
@@ -560,6 +587,97 @@ def gen_constructs(rng, cfg, faults=True, n_max=9, **kw):
     return spec
 
 
+def gen_hub(rng, faults=True, n_max=10, **kw):
+    """cross-scope class: one 'hub' node (failing / slow / None-valued / plain) is needed in 2-3 different roles
+    from different scopes at once - plain input of a main node, decider of a main-scope switch, input of one or two
+    one-of candidates, input of a switch case, decider of a switch inside a candidate."""
+    b = Builder(rng)
+    b.faults = faults
+    b.new([])
+    for _ in range(rng.randint(1, 3)):
+        b.new(b.in_params(b.pick(rng.choice([1, 1, 2]))))
+    kind = rng.choice(['fail', 'fail', 'fail', 'slow', 'none', 'ok'])
+    roles = rng.sample(['main_in', 'main_decider', 'cand_in', 'cand2_in', 'case_in', 'cand_decider'],
+                       rng.choice([2, 2, 3]))
+    decider = 'main_decider' in roles or 'cand_decider' in roles
+    hub_attrs = {}
+    if decider:
+        hub_attrs['value'] = {'labels': ['L0', 'L1'] if rng.random() < 0.8 else ['L0', 'L1', 'UNK']}
+    elif kind == 'none':
+        hub_attrs['value'] = rng.choice(['none', 'zero', 'empty'])
+    hub = b.new(b.in_params(b.pick(rng.choice([1, 1, 2]))), **hub_attrs)
+    hubnode = b.nodes[-1]
+    hubnode['hub'] = kind
+    if rng.random() < 0.4:
+        b.new(b.in_params(b.pick(1, exclude={hub})))      # something else that can be slow
+
+    def chain_from(srcs, n):
+        top = b.new(b.in_params(srcs), public=False)
+        for _ in range(n - 1):
+            extra = b.pick(1, exclude={top}) if rng.random() < 0.3 else []
+            top = b.new(b.in_params([top] + extra), public=False)
+        return top
+
+    def plain_chain(n):
+        return chain_from(b.pick(1, exclude={hub}) or ['n0'], n)
+
+    mains = []
+    sw = 0
+    for role in roles:
+        other = b.pick(1, exclude={hub})
+        if role == 'main_in':
+            mains.append(b.new(b.in_params(other + [hub])))
+        elif role == 'main_decider':
+            sw += 1
+            cases = [['L0', plain_chain(rng.choice([1, 2]))], ['L1', plain_chain(1)]]
+            mains.append(b.new(b.in_params(other) + [['s', ['Switch', f'hsw{sw}', hub, cases]]]))
+        elif role == 'cand_in':
+            c1 = chain_from([hub], rng.choice([1, 2, 3]))
+            c2 = plain_chain(rng.choice([1, 2]))
+            cands = [c1, c2] if rng.random() < 0.8 else [c2, c1]
+            mains.append(b.new(b.in_params(other) + [['o', ['OneOf', cands]]]))
+        elif role == 'cand2_in':
+            c1 = chain_from([hub], rng.choice([1, 2]))
+            c2 = chain_from([hub] + (b.pick(1, exclude={hub}) if rng.random() < 0.5 else []), rng.choice([1, 2, 3]))
+            c3 = plain_chain(1)
+            mains.append(b.new(b.in_params(other) + [['o', ['OneOf', [c1, c2, c3]]]]))
+        elif role == 'case_in':
+            sw += 1
+            d = b.new(b.in_params(b.pick(1, exclude={hub}) or ['n0']), public=False, value={'labels': ['L0', 'L1']})
+            cases = [['L0', chain_from([hub], rng.choice([1, 2]))], ['L1', plain_chain(1)]]
+            mains.append(b.new(b.in_params(other) + [['s', ['Switch', f'hsw{sw}', d, cases]]]))
+        elif role == 'cand_decider':
+            sw += 1
+            cases = [['L0', plain_chain(1)], ['L1', plain_chain(rng.choice([1, 2]))]]
+            x = b.new([['s', ['Switch', f'hsw{sw}', hub, cases]]] + b.in_params(b.pick(1, exclude={hub})), public=False)
+            c1 = chain_from([x], rng.choice([1, 2])) if rng.random() < 0.5 else x
+            c2 = plain_chain(1)
+            mains.append(b.new(b.in_params(other) + [['o', ['OneOf', [c1, c2]]]]))
+    out_params = b.in_params(mains[:3])
+    b.new(out_params)
+    spec = {'nodes': b.nodes, 'input': 'n0', 'output': b.nodes[-1]['name']}
+    prune(spec)
+    assign_modes(rng, spec['nodes'])
+    if kind == 'slow':
+        hubnode['mode'] = 'coro'
+        hubnode['gates'] = 2
+    if faults and kind == 'fail':
+        hubnode['plan'] = [rng.choice(['E1', 'E2', 'E3'])] * 6
+        if rng.random() < 0.4:
+            hubnode['retry'] = {'attempts': rng.choice([2, 3]), 'delay': rng.choice([None, 0, 0.5]),
+                                'exceptions': None, 'use_default': False}
+    if faults and rng.random() < 0.5:
+        others = [n for n in spec['nodes'] if n is not hubnode and n['name'] != 'n0']
+        if others:
+            o = rng.choice(others)
+            o['plan'] = [rng.choice(['E1', 'E2', 'E3'])]
+    hubnode.pop('hub', None)
+    spec['class'] = 'hub'
+    return spec
+
+
+GENERATORS['hub'] = gen_hub
+
 CFG = {
     'switch': {'name': 'switch', 'constructs': ['switch'], 'shared': False, 'p_nest': 0.25, 'max_nest': 2},
     'switch_unk': {'name': 'switch_unk', 'constructs': ['switch'], 'shared': False, 'p_nest': 0.2, 'max_nest': 1,
@@ -569,9 +687,9 @@ CFG = {
     'oneof_nested': {'name': 'oneof_nested', 'constructs': ['oneof'], 'shared': False, 'p_nest': 0.3, 'max_nest': 2},
     'oneof_shared': {'name': 'oneof_shared', 'constructs': ['oneof'], 'shared': True, 'p_nest': 0.2, 'max_nest': 1},
     'mix_main': {'name': 'mix_main', 'constructs': ['switch', 'oneof'], 'shared': False, 'p_nest': 0.25, 'max_nest': 2,
-                 'nest_same_kind': True, 'public_deciders': True, 'unknown_label': True},
+                 'nest_same_kind': True, 'public_deciders': True, 'unknown_label': True, 'p_read_decider': 0.25},
     'switch_oneof': {'name': 'switch_oneof', 'constructs': ['switch', 'oneof'], 'shared': False, 'p_nest': 0.3,
-                     'max_nest': 2},
+                     'max_nest': 2, 'public_deciders': True, 'p_read_decider': 0.2},
 }
 for _k, _cfg in CFG.items():
     GENERATORS[_k] = (lambda cfg: (lambda rng, **kw: gen_constructs(rng, cfg, **kw)))(_cfg)
